@@ -475,12 +475,19 @@ pub fn make_module() -> KMap {
 
 // Returns true if comparing the value could run an overridden operator (i.e. script code)
 fn may_run_overridden_ops(value: &KValue) -> bool {
-    match value {
-        KValue::Map(_) | KValue::Object(_) => true,
-        KValue::List(l) => l.data().iter().any(may_run_overridden_ops),
-        KValue::Tuple(t) => t.iter().any(may_run_overridden_ops),
-        _ => false,
+    // Containers can contain themselves, so the search is depth limited.
+    // Deeply nested values are assumed to contain a value with overridden operators.
+    fn check(value: &KValue, depth: usize) -> bool {
+        match value {
+            KValue::Map(_) | KValue::Object(_) => true,
+            KValue::List(_) | KValue::Tuple(_) if depth >= 8 => true,
+            KValue::List(l) => l.data().iter().any(|value| check(value, depth + 1)),
+            KValue::Tuple(t) => t.iter().any(|value| check(value, depth + 1)),
+            _ => false,
+        }
     }
+
+    check(value, 0)
 }
 
 fn is_list(value: &KValue) -> bool {
